@@ -2,6 +2,7 @@ use crate::error::Error;
 use crate::number::Number;
 use crate::vm::vcell::VCell;
 use crate::vm::Vm;
+use std::collections::HashSet;
 
 impl Vm {
     /// eqv
@@ -59,10 +60,32 @@ impl Vm {
     /// When applied to pairs, vectors and strings it recursively compares them.
     /// If applied to any other type, it compares with eqv?.
     pub fn equal(&self, left: &VCell, right: &VCell) -> Result<bool, Error> {
+        self.equal_seen(left, right, &mut HashSet::new())
+    }
+
+    /// equal? with the pairs of heap locations already under comparison: a pair of locations met
+    /// again belongs to a cycle and is equal unless a difference shows up elsewhere, which is
+    /// what makes equal? terminate on circular lists and self-containing vectors.
+    fn equal_seen(
+        &self,
+        left: &VCell,
+        right: &VCell,
+        seen: &mut HashSet<(usize, usize)>,
+    ) -> Result<bool, Error> {
         let mut left = left.clone();
         let mut right = right.clone();
         if self.eqv(&left, &right)? {
             return Ok(true);
+        }
+        if let (VCell::Ptr(l), VCell::Ptr(r)) = (&left, &right) {
+            let (l, r) = (*l, *r);
+            if (self.heap.get_at_index(l).is_pair() && self.heap.get_at_index(r).is_pair())
+                || (self.heap.get_at_index(l).is_vector() && self.heap.get_at_index(r).is_vector())
+            {
+                if !seen.insert((l, r)) {
+                    return Ok(true);
+                }
+            }
         }
         left = match left {
             VCell::Ptr(ptr) => self.heap.get_at_index(ptr).clone(),
@@ -73,10 +96,10 @@ impl Vm {
             _ => right.clone(),
         };
         if left.is_pair() && right.is_pair() {
-            return self.compare_pair(left, right);
+            return self.compare_pair(left, right, seen);
         }
         if left.is_vector() && right.is_vector() {
-            return self.compare_vector(left, right);
+            return self.compare_vector(left, right, seen);
         }
         if left.is_string() && right.is_string() {
             return Ok(left.as_string()?.borrow().as_str() == right.as_string()?.borrow().as_str());
@@ -84,29 +107,45 @@ impl Vm {
         self.eqv(&left, &right)
     }
 
-    pub fn compare_pair(&self, mut left: VCell, mut right: VCell) -> Result<bool, Error> {
+    fn compare_pair(
+        &self,
+        mut left: VCell,
+        mut right: VCell,
+        seen: &mut HashSet<(usize, usize)>,
+    ) -> Result<bool, Error> {
         loop {
             if !left.is_pair() || !right.is_pair() {
-                return self.equal(&left, &right);
+                return self.equal_seen(&left, &right, seen);
             }
             let lcar = left.as_car()?;
             let rcar = right.as_car()?;
-            if !self.equal(&lcar, &rcar)? {
+            if !self.equal_seen(&lcar, &rcar, seen)? {
                 return Ok(false);
             }
-            left = self.heap.get(&left.as_cdr()?);
-            right = self.heap.get(&right.as_cdr()?);
+            let lcdr = left.as_cdr()?;
+            let rcdr = right.as_cdr()?;
+            left = self.heap.get(&lcdr);
+            right = self.heap.get(&rcdr);
+            // the walk comes back to a pair of tails it has already started from: a cycle
+            if left.is_pair() && right.is_pair() && !seen.insert((lcdr.as_ptr()?, rcdr.as_ptr()?)) {
+                return Ok(true);
+            }
         }
     }
 
-    pub fn compare_vector(&self, left: VCell, right: VCell) -> Result<bool, Error> {
+    fn compare_vector(
+        &self,
+        left: VCell,
+        right: VCell,
+        seen: &mut HashSet<(usize, usize)>,
+    ) -> Result<bool, Error> {
         let left = left.as_vector()?;
         let right = right.as_vector()?;
         if left.len() != right.len() {
             return Ok(false);
         }
         for idx in 0..left.len() {
-            if !self.equal(&left.get(idx).unwrap(), &right.get(idx).unwrap())? {
+            if !self.equal_seen(&left.get(idx).unwrap(), &right.get(idx).unwrap(), seen)? {
                 return Ok(false);
             }
         }
